@@ -157,6 +157,8 @@ theorem run_sameView {E : Env} {P : Nat} (i j : Nat) (hji : j ≠ i) :
         | regObs _ _ _ => simp [WOp.target] at ht
         | regAny _ _ => simp [WOp.target] at ht
         | addTrait _ _ _ => simp [WOp.target] at ht
+        | del _ _ => simp [WOp.target] at ht
+        | query _ => simp [WOp.target] at ht
     have hj' : j < (World.step E w op).2.insts.length := by
       have : w.insts[j]? = some w.insts[j] := List.getElem?_eq_getElem hj
       exact getElem?_lt (hstep.inst.trans this)
